@@ -444,6 +444,33 @@ def _job_entry(args):
     return d
 
 
+def checked_anywhere(mod, case, rec):
+    """checked(), in the interpreter mode the case asks for: a case found under `python -O` is
+    confirmed / replayed under `python -O`."""
+    if isinstance(case, dict) and case.get("python_O"):
+        import subprocess
+        import tempfile
+
+        plain = {k: v for k, v in case.items() if k != "python_O"}
+        with tempfile.NamedTemporaryFile("w", suffix=".json", delete=False) as fp:
+            json.dump(plain, fp)
+            path = fp.name
+        try:
+            r = subprocess.run([sys.executable, "-O", "-m", "vf.optrun", mod.ID, "--case", path], cwd=VERIF_DIR,
+                               capture_output=True, text=True, env=dict(os.environ, PYTHONOPTIMIZE="1"), timeout=600)
+        finally:
+            os.remove(path)
+        lines = [ln for ln in r.stdout.splitlines() if ln.startswith("OPTRUN ")]
+        if r.returncode != 0 or not lines:
+            raise HarnessError(f"python -O child failed: {r.returncode} {r.stderr[-800:]}")
+        out = json.loads(lines[-1][7:])
+        rec.evaluations += out["evaluations"]
+        if out["failures"]:
+            raise Violation("under python -O: " + out["failures"][0][1], case)
+        return
+    checked(mod, case, rec)
+
+
 def run_optimized(mod, rec):
     """The deterministic members of a property once more in a `python -O` child: the library must not
     lean on assert statements (or __debug__) for its behaviour."""
